@@ -293,7 +293,7 @@ _CONST = st.one_of(st.sampled_from(G.NUM_CONST), st.sampled_from(G.TXT_CONST), s
 def _specs(tier):
     return st.builds(lambda spec, sink, over, out: {'k': 'spec', 'spec': spec, 'sink': sink, 'over': over, 'out': out % 21, 'merge': out >= 21},
                      G.specs(tier, max_books=2, wholecols=False, const=_CONST,
-                             sheet_classes=['plain', 'plain', 'space', 'mixed', 'nonascii', 'casefold']),
+                             sheet_classes=['plain', 'plain', 'space', 'mixed', 'nonascii', 'casefold', 'default', 'default']),
                      st.sampled_from(['fresh', 'loaded', 'disk']),
                      st.one_of(st.just([]), st.lists(st.tuples(st.integers(0, 20), _VAL).map(list), min_size=1, max_size=3)),
                      st.integers(0, 41))
